@@ -1,6 +1,6 @@
 CONSTANTS
   MaxLen = 3
-  Alphabet = {"bu","wei","da","yu","deng","ru","guo","he","jie","shu","xun","huan","de","zhu","L","D","+","-","*","/","sp","bt","col","dot","eq","lq","rq"}
+  Alphabet = {"bu","wei","da","yu","deng","ru","guo","he","jie","shu","xun","huan","de","zhu","L","D","+","-","*","/","%","sp","bt","col","dot","eq","lq","rq"}
 SPECIFICATION Spec
 INVARIANTS SpansOK Covers Deterministic Emit
 PROPERTY Progress
